@@ -298,8 +298,14 @@ def run(ctx):
              'the MRO is not layered in reverse: the least specific section wins', ml)
     ups = [c for c in calls_in(ml) if ('func', CFGM + ':recursive_update') in cg.resolve(c.func, bc)]
     kinds = []
+    _bdefs = local_defs(bc)
     for c in ups:
         src = c.args[1] if len(c.args) > 1 else None
+        # a local that holds the value (defaults = <...>.configured_traits(cls)) stands for its single definition
+        if isinstance(src, ast.Name):
+            ds = [v for v, k, st in _bdefs.get(src.id, []) if k == 'assign']
+            if len(ds) == 1:
+                src = ds[0]
         if src is not None and any(isinstance(x, ast.Call) and isinstance(x.func, ast.Attribute) and x.func.attr == 'configured_traits' for x in ast.walk(src)):
             kinds.append(('defaults', c.lineno))
         elif src is not None and _section_expr(src):
